@@ -653,10 +653,17 @@ spifconf_shell_expand(spif_charptr_t s)
                     case '{':
                         for (pbuff++, k = 0; *pbuff && *pbuff != '}' && k < 127; k++, pbuff++)
                             EnvVar[k] = *pbuff;
+                        if (*pbuff == '}') {
+                            /* The closing brace is part of the reference, not of the text that follows. */
+                            pbuff++;
+                        }
                         break;
                     case '(':
                         for (pbuff++, k = 0; *pbuff && *pbuff != ')' && k < 127; k++, pbuff++)
                             EnvVar[k] = *pbuff;
+                        if (*pbuff == ')') {
+                            pbuff++;
+                        }
                         break;
                     default:
                         for (k = 0; (isalnum(*pbuff) || *pbuff == '_') && k < 127; k++, pbuff++)
